@@ -125,6 +125,8 @@ class Kind:
             try:
                 return strict(max_ticks)
             except Inconclusive:
+                if self.stuck_workers(overdue_only=True):
+                    raise        # waiting longer will not help: a worker of a closed connection keeps running
                 self.restless += 1
                 if self.restless > 6 * self.n + 60:
                     raise
@@ -132,12 +134,33 @@ class Kind:
 
         self.h.settle = tolerant
 
+    STUCK_AFTER_S = 15.0     # a stopped worker normally ends within one scaled poll period (20-50 ms)
+
+    def stuck_workers(self, overdue_only=False):
+        """Workers of connections the node has closed and removed that were told to stop and are still running."""
+        from diameter.node.peer import PEER_CLOSED
+        stuck = []
+        now = time.time()
+        seen = self.__dict__.setdefault("_stuck_first_seen", {})
+        for c in self.h.conns:
+            if c.state == PEER_CLOSED and self.w.node.connections.get(c.ident) is not c:
+                for role, t in (("read", c._read_thread), ("write", c._write_thread)):
+                    if t.is_alive() and t.is_stopped:
+                        first = seen.setdefault(id(t), now)
+                        if not overdue_only or now - first > self.STUCK_AFTER_S:
+                            stuck.append(role)
+        return stuck
+
     def ids(self):
         self.hbh += 1
         return self.hbh, 0x1000000 + self.hbh
 
     def connect(self, gen=0, cer=True):
         h, M = self.h, self.M
+        if self.stuck_workers(overdue_only=True):
+            # more connections would only pile up more of them (and each one that spins slows everything down)
+            from vf.simnet.harness import Inconclusive
+            raise Inconclusive("a worker of a closed connection has kept running")
         sp = h.inbound(ip="10.1.0.1", port=50000 + gen % 10000)
         h.settle()
         if cer:
@@ -486,6 +509,18 @@ def run_shard(spec):
             k = Kind(kind, n)
             try:
                 res[n] = k.run()
+            except Inconclusive:
+                # The harness gave up waiting for quiet. One cause is itself the refuting observation: the worker of a
+                # connection the node has closed and removed - told to stop, the whole watchdog period ago at least -
+                # is still running (not parked, not ended): that thread has not been released with its connection.
+                stuck = k.stuck_workers(overdue_only=True)
+                if stuck:
+                    return {"evaluations": 1, "hashes": [h64(kind, n)], "samples": [], "coverage": cov,
+                            "witnesses": [{"key": f"growth.threads.worker_of_closed_connection_still_running:{kind}",
+                                           "detail": {"kind": kind, "N": n, "workers": stuck[:10], "count": len(stuck),
+                                                      "watchdog_s": k.w.h.watchdog},
+                                           "replay": {"kind": kind, "n": [n1, n2]}}]}
+                raise
             finally:
                 k.close()
             if kind == "outbound_req_timeout":
